@@ -41,6 +41,11 @@ Lemma cross_fit_stage_order :
   ["preprocessor1"; "preprocessor2"; "pca1"; "pca2"; "_augment_data"; "whitener1"; "whitener2"; "_fit_algorithm"].
 Proof. reflexivity. Qed.
 
+(* between the stages of fit and of transform the two fields are only handed on: no other statement binds X or Y (no alignment of one field on
+   the other, no re-indexing, no selection) - each field's scores are a function of that field alone *)
+Lemma cross_fields_only_pass_through_stages : cross_other_field_writes = [].
+Proof. reflexivity. Qed.
+
 Lemma single_chain :
   single_fit_calls = [("data2D", "preprocessor", "fit_transform", "X"); ("-", "_fit_algorithm", "call", "data2D")] /\
   single_transform_calls = [("data2D", "preprocessor", "transform", "data"); ("data2D", "_transform_algorithm", "call", "data2D")].
